@@ -1478,7 +1478,18 @@ class MindsDBParser(Parser):
 
     @_('identifier LPAREN DISTINCT expr_list RPAREN')
     def function(self, p):
-        return Function(op=p[0].parts[0], distinct=True, args=p.expr_list)
+        namespace, name = self.function_name_parts(p.identifier)
+        return Function(op=name, distinct=True, args=p.expr_list, namespace=namespace)
+
+    @staticmethod
+    def function_name_parts(identifier):
+        # namespace.name: a Function has no place for more parts
+        if len(identifier.parts) > 2:
+            raise ParsingException(f'Function name has more than two parts: {str(identifier)}')
+        name = identifier.parts[-1]
+        if isinstance(name, Star):
+            raise ParsingException(f'Function name can not be *: {str(identifier)}')
+        return (identifier.parts[0] if len(identifier.parts) > 1 else None), name
 
     @_(
        'function_name LPAREN expr_list_or_nothing RPAREN',
@@ -1501,11 +1512,7 @@ class MindsDBParser(Parser):
 
         namespace = None
         if hasattr(p, 'identifier'):
-            if len(p.identifier.parts) > 1:
-                namespace = p.identifier.parts[0]
-            name = p.identifier.parts[-1]
-            if isinstance(name, Star):
-                raise ParsingException(f'Function name can not be *: {str(p.identifier)}')
+            namespace, name = self.function_name_parts(p.identifier)
         else:
             name = p.function_name
         return Function(op=name, args=args, namespace=namespace)
